@@ -240,37 +240,84 @@ static void crash_pair(vt::rng &R,pairspec const &P,bool thorough)
 		if(v!=fin) { tr.line(vt::J().s("e","HarnessError").s("what","replayed writes differ from the file").str()); tr.close(); exit(4); }
 	}
 	// enumerate crash states
-	std::string v=base; bool vex=true;   // the open(O_CREAT) happened
+	std::string v=base;
 	std::set<int> touched;
 	for(size_t w=0;w<=W.size();w++) {
 		// volatile image after w complete calls, then byte prefixes of call w+1
 		std::vector<long> prefixes; prefixes.push_back(0);
 		if(w<W.size() && W[w].ret>0) {
-			for(long pb=1;pb<W[w].ret;pb++) if((size_t)(W[w].off+pb)>=HB) prefixes.push_back(pb);
+			long off=W[w].off, len=W[w].ret;
+			if(len<=8192) { for(long pb=1;pb<len;pb++) if((size_t)(off+pb)>=HB) prefixes.push_back(pb); }
+			else {
+				// long values: a coarse stride, both ends, sector boundaries and everything around the 64 KiB marks
+				std::set<long> ps;
+				long stride= thorough ? 2048+13 : 4096+37;
+				for(long pb=stride;pb<len;pb+=stride) ps.insert(pb);
+				static const long marks[]={65536,65536+(long)HB,131072,131072+(long)HB};
+				for(int m=0;m<4;m++) for(long d=-2;d<=2;d++) { ps.insert(marks[m]-off+d); ps.insert(marks[m]-off+d+(long)SS); ps.insert(marks[m]-off+d-(long)SS); }
+				for(long d=1;d<=3;d++) { ps.insert(d); ps.insert(len-d); ps.insert((long)SS-off+d-2); }
+				for(int k=0;k<(thorough?40:8);k++) ps.insert(1+R(len-1));
+				for(std::set<long>::iterator q=ps.begin();q!=ps.end();++q) if(*q>=1 && *q<len && (size_t)(off+*q)>=HB) prefixes.push_back(*q);
+			}
 		}
 		for(size_t pi=0;pi<prefixes.size();pi++) {
 			long pb=prefixes[pi];
 			std::string vv=v; std::set<int> tt=touched;
 			if(pb>0) {
 				overlay(vv,W[w].off,W[w].data,pb);
-				for(long o=W[w].off;o<W[w].off+pb;o++) tt.insert(o/SS);
+				for(long sct=W[w].off/(long)SS;sct<=(W[w].off+pb-1)/(long)SS;sct++) tt.insert((int)sct);
 			}
 			std::vector<int> T(tt.begin(),tt.end());
-			std::vector<unsigned> masks;
-			if(T.size()<=8) { for(unsigned m=0;m<(1u<<T.size());m++) masks.push_back(m); }
-			else { masks.push_back(0); masks.push_back((1u<<T.size())-1); for(int k=0;k<(thorough?126:30);k++) masks.push_back(R(1u<<T.size())); }
-			for(size_t mi=0;mi<masks.size();mi++) {
-				unsigned m=masks[mi];
+			size_t nt=T.size();
+			// sector subsets, as sorted lists of positions in T
+			std::vector<std::vector<int> > subs;
+			if(nt<=8) {
+				for(unsigned m=0;m<(1u<<nt);m++) { std::vector<int> q; for(size_t k=0;k<nt;k++) if(m&(1u<<k)) q.push_back(k); subs.push_back(q); }
+			}
+			else {
+				bool full = (pb==0);                 // all calls so far complete: the richest set of subsets
+				std::set<std::vector<int> > ss;
+				std::vector<int> all; for(size_t k=0;k<nt;k++) all.push_back(k);
+				ss.insert(std::vector<int>()); ss.insert(all);
+				// prefixes of the sector sequence: coarse stride + every length around the 64 KiB marks (sectors 128/129, 256/257)
+				std::set<size_t> pl; pl.insert(1); pl.insert(2); pl.insert(nt-1); pl.insert(nt-2);
+				size_t st= full ? (thorough? 8 : 24) : 96;
+				for(size_t k=st;k<nt;k+=st) pl.insert(k);
+				for(size_t m=128;m<nt+4;m+=128) for(size_t k=(m>3?m-3:0);k<=m+4;k++) if(k>=1 && k<nt) pl.insert(k);
+				for(std::set<size_t>::iterator q=pl.begin();q!=pl.end();++q) if(*q>=1 && *q<nt) ss.insert(std::vector<int>(all.begin(),all.begin()+*q));
+				// all sectors except one (late ones: the last, those around 64 KiB, a sample), except the header sector
+				std::set<size_t> holes; holes.insert(0); holes.insert(nt-1); holes.insert(nt-2);
+				for(size_t k=126;k<=131;k++) if(k<nt) holes.insert(k);
+				for(size_t k=255;k<=258;k++) if(k<nt) holes.insert(k);
+				for(int k=0;k<(full?(thorough?24:8):2);k++) holes.insert(nt>130 && k%2==0 ? 129+R(nt-129) : R(nt));
+				for(std::set<size_t>::iterator q=holes.begin();q!=holes.end();++q) { std::vector<int> x=all; x.erase(x.begin()+*q); ss.insert(x); }
+				// header + first 64 KiB, then a hole, then the rest / a later part only
+				if(nt>136) {
+					for(size_t from=129;from<=133;from+=2) { std::vector<int> x(all.begin(),all.begin()+128); for(size_t k=from+1;k<nt;k++) x.push_back(k); ss.insert(x); }
+					{ std::vector<int> x(all.begin(),all.begin()+129); x.push_back(nt-1); ss.insert(x); }
+					{ std::vector<int> x(all.begin()+1,all.end()); ss.insert(x); }
+					{ std::vector<int> x(all.begin()+129,all.end()); ss.insert(x); }
+				}
+				// random ones: sparse, half, dense
+				for(int k=0;k<(full?(thorough?60:12):3);k++) {
+					unsigned dens= k%3==0 ? 50 : k%3==1 ? 95 : 10;
+					std::vector<int> x; for(size_t q=0;q<nt;q++) if(R(100)<dens || (q==0 && k%2==0)) x.push_back(q);
+					ss.insert(x);
+				}
+				subs.assign(ss.begin(),ss.end());
+			}
+			for(size_t mi=0;mi<subs.size();mi++) {
+				std::vector<int> const &m=subs[mi];
 				for(int c=0;c<2;c++) {
-					bool created = bex || m!=0 || c==1;
-					if(c==1 && (bex || m!=0)) continue;
+					bool created = bex || !m.empty() || c==1;
+					if(c==1 && (bex || !m.empty())) continue;
 					// durable image
 					std::string img=base;
 					std::vector<int> S;
-					for(size_t k=0;k<T.size();k++) if(m&(1u<<k)) {
-						int s=T[k]; S.push_back(s);
-						size_t lo=s*SS, hi=std::min((size_t)(s+1)*SS,vv.size());
-						if(hi>lo) overlay(img,lo,vv.substr(lo,hi-lo),hi-lo);
+					for(size_t k=0;k<m.size();k++) {
+						int sct=T[m[k]]; S.push_back(sct);
+						size_t lo=sct*SS, hi=std::min((size_t)(sct+1)*SS,vv.size());
+						if(hi>lo) { if(img.size()<hi) img.resize(hi,'\0'); memcpy(&img[lo],&vv[lo],hi-lo); }
 					}
 					if(created) put(f,img); else ::unlink(path(f).c_str());
 					lres r=do_load(f);
@@ -284,10 +331,9 @@ static void crash_pair(vt::rng &R,pairspec const &P,bool thorough)
 		}
 		if(w<W.size() && W[w].ret>0) {
 			overlay(v,W[w].off,W[w].data,W[w].ret);
-			for(long o=W[w].off;o<W[w].off+W[w].ret;o++) touched.insert(o/SS);
+			for(long sct=W[w].off/(long)SS;sct<=(W[w].off+W[w].ret-1)/(long)SS;sct++) touched.insert((int)sct);
 		}
 	}
-	(void)vex;
 	::unlink(path(f).c_str());
 }
 
@@ -332,6 +378,24 @@ static void crash_mode(long shard,long nshards,bool thorough)
 			pairspec p4={5,lens[a]/2,nn,0,160,150,now,lens[a]+40}; L.push_back(p4);          // older longer tail
 		}
 	}
+	{
+		// long values (> 64 KiB): more than 8 sectors, structured + random sector subsets, sampled byte prefixes.
+		// previous file absent / shorter / equal length / longer, content unrelated (random bytes: torn regions differ)
+		pairspec l1={1,66000,66000,0,160,150,now,0}; L.push_back(l1);
+		pairspec l2={0,0,70000,0,0,150,now,0}; L.push_back(l2);
+		pairspec l3={1,70000,66000,0,160,150,now,0}; L.push_back(l3);
+		if(thorough) {
+			pairspec t1={1,1000,66000,0,160,150,now,0}; L.push_back(t1);
+			pairspec t2={1,66000,70000,0,160,150,now,0}; L.push_back(t2);
+			pairspec t3={1,70000,70000,0,160,150,now,0}; L.push_back(t3);
+			pairspec t4={0,0,200000,0,0,150,now,0}; L.push_back(t4);
+			pairspec t5={1,200000,200000,0,160,150,now,0}; L.push_back(t5);
+			pairspec t6={1,70000,200000,0,160,150,now,0}; L.push_back(t6);
+			pairspec t7={1,200000,66000,0,160,150,now,0}; L.push_back(t7);
+			pairspec t8={4,66000,70000,0,160,150,now,0}; L.push_back(t8);
+			pairspec t9={1,66000,66000,3,160,150,now,0}; L.push_back(t9);     // one byte differs
+		}
+	}
 	if(thorough) {
 		// beyond 8 sectors: random sector subsets
 		pairspec p={1,3000,4500,2,160,150,now,0}; L.push_back(p);
@@ -339,7 +403,7 @@ static void crash_mode(long shard,long nshards,bool thorough)
 	}
 	// cost-balanced sharding: cost ~ events
 	std::vector<std::pair<double,size_t> > cost;
-	for(size_t i=0;i<L.size();i++) { double n=L[i].newn; cost.push_back(std::make_pair(-(n*(1+n/512.0)+50),i)); }
+	for(size_t i=0;i<L.size();i++) { double n=L[i].newn; double cst= n>8192 ? 25000.0*(n+L[i].oldn/2)/66000.0 : n*(1+n/512.0)+50; cost.push_back(std::make_pair(-cst,i)); }
 	std::sort(cost.begin(),cost.end());
 	std::vector<double> load(nshards,0);
 	std::vector<std::vector<size_t> > mine(nshards);
